@@ -11,6 +11,8 @@ import (
 	"encoding/pem"
 	"math/big"
 	"net"
+	"os"
+	"path/filepath"
 	"sync"
 	"time"
 )
@@ -108,6 +110,10 @@ type PKI struct {
 	ClientShadow  KeyPair
 	ClientExpired KeyPair // signed by CA, expired
 	OldCA         *CA     // an unrelated further CA, listed before CA in bundles ("old and new CA during a rotation")
+	// PlatformCA stands for the certificate authorities the operating system trusts: after InstallPlatformTrust the
+	// process' system pool holds exactly this one. Nobody configures it as a CA option.
+	PlatformCA     *CA
+	ClientPlatform KeyPair // client certificate signed by PlatformCA
 }
 
 // Bundle is a CA option holding two certificates: an unrelated CA first, the real one second.
@@ -134,6 +140,8 @@ func GetPKI() *PKI {
 		p.ShadowCA = NewCA("verif-ca")
 		p.ClientShadow = p.ShadowCA.Issue("client", nil, nil, true, false)
 		p.ClientExpired = p.CA.Issue("client", nil, nil, true, true)
+		p.PlatformCA = NewCA("verif-platform-ca")
+		p.ClientPlatform = p.PlatformCA.Issue("client", nil, nil, true, false)
 		pki = p
 	})
 	return pki
@@ -145,7 +153,8 @@ var (
 )
 
 // ServerCertFor returns a server certificate of the given kind for host: "match" (trusted, SAN == host only),
-// "wronghost" (trusted, SAN other.example), "untrusted" (foreign CA, SAN == host), "expired" (trusted, SAN == host).
+// "wronghost" (trusted, SAN other.example), "untrusted" (foreign CA, SAN == host), "expired" (trusted, SAN == host),
+// "platform" (valid, SAN == host, signed by the CA of the platform trust store instead of the configured one).
 func ServerCertFor(kind, host string) KeyPair {
 	p := GetPKI()
 	certMu.Lock()
@@ -170,9 +179,40 @@ func ServerCertFor(kind, host string) KeyPair {
 		kp = p.ForeignCA.Issue(host, dns, ips, false, false)
 	case "expired":
 		kp = p.CA.Issue(host, dns, ips, false, true)
+	case "platform":
+		kp = p.PlatformCA.Issue(host, dns, ips, false, false)
 	default:
 		panic("unknown certificate kind " + kind)
 	}
 	certCache[key] = kp
 	return kp
+}
+
+// InstallPlatformTrust makes PlatformCA the one certificate authority of the process' system trust store (SSL_CERT_FILE
+// and an empty SSL_CERT_DIR, read by crypto/x509 when the system pool is first needed). It has to run before anything
+// verifies a certificate; it panics ("vlib:", i.e. an inconclusive run) when the store turns out to hold anything else.
+func InstallPlatformTrust() {
+	p := GetPKI()
+	dir, err := os.MkdirTemp(os.Getenv("VERIF_RUNDIR"), "platform-trust-")
+	if err != nil {
+		panic("vlib: platform trust store: " + err.Error())
+	}
+	file := filepath.Join(dir, "ca.pem")
+	empty := filepath.Join(dir, "certs.d")
+	if err := os.WriteFile(file, []byte(p.PlatformCA.CertPEM), 0o644); err != nil {
+		panic("vlib: platform trust store: " + err.Error())
+	}
+	_ = os.Mkdir(empty, 0o755)
+	os.Setenv("SSL_CERT_FILE", file)
+	os.Setenv("SSL_CERT_DIR", empty)
+	pool, err := x509.SystemCertPool()
+	if err != nil {
+		panic("vlib: platform trust store: " + err.Error())
+	}
+	if _, err := p.PlatformCA.Cert.Verify(x509.VerifyOptions{Roots: pool}); err != nil {
+		panic("vlib: platform trust store does not hold the harness CA: " + err.Error())
+	}
+	if _, err := p.CA.Cert.Verify(x509.VerifyOptions{Roots: pool}); err == nil {
+		panic("vlib: platform trust store trusts the configured CA")
+	}
 }
